@@ -39,6 +39,33 @@ def _mc(ctx, part, stim):
     ctx.extra["mc_constants"] = {"KStep": 8 if ctx.tier == "quick" else 1, "MaxW": 32, "MaxL": 4}
 
 
+def _pieces(path, max_bytes=96 << 20):
+    """The harness (hx_common::drive) holds a whole stimuli file in memory as JSON values -- about 35 times its size; the
+    thorough slice file is 0.7 GB.  Files in the one-execution-per-line form are therefore cut at line boundaries into
+    pieces of at most max_bytes, executed and judged one after the other (executions are independent of each other)."""
+    if os.path.getsize(path) <= max_bytes:
+        yield path
+        return
+    with open(path) as f:
+        first = f.readline()
+        if not first.lstrip().startswith("["):
+            yield path
+            return
+        f.seek(0)
+        k, size, out = 0, 0, None
+        for line in f:
+            if out is None or size + len(line) > max_bytes:
+                if out is not None:
+                    out.close()
+                    yield out.name
+                out, size, k = open("%s.piece%d" % (path, k), "w"), 0, k + 1
+            out.write(line)
+            size += len(line)
+        if out is not None:
+            out.close()
+            yield out.name
+
+
 def pipeline(ctx, part, replay=None):
     """part = 'frame' (C03) or 'slice' (C10).  Returns (functional rejections, heap rejections)."""
     hx = ctx.cargo_build("hx_frame")
@@ -52,14 +79,24 @@ def pipeline(ctx, part, replay=None):
         os.environ["HX_PART"] = part                # the generator writes only this property's stimuli
         ctx.harness(hx, ["gen", str(ctx.seed), ctx.tier, rnd])
         stim_files = [("tlc", stim, [part]), ("random", rnd, [part])]
-    for name, sf, extra in stim_files:
-        tr = os.path.join(ctx.work, "frame_trace_%s.ndjson" % name)
-        rej += ctx.run_stimuli(hx, sf, tr, part, extra_args=extra)
-        ctx.count_distinct(tr)
-        res = ctx.validate("Trace_Frame", tr, comp=part, max_lines=5000, jobs=8, batch=True)
-        rej += res["rejected"]
-        heap += res["heap"]
-        os.remove(tr)
+    # both build profiles (kit.profile_runs): debug = debug assertions + overflow checks on; release = both off, optimised
+    # (release: a replay as it is, the random stimuli in full, the TLC-enumerated executions thinned in the quick tier)
+    extras = {item[0]: item[2] for item in stim_files}
+    for name, prof, hxp, sf in kit.profile_runs(ctx, "hx_frame", stim_files, replay):
+        if prof == "release" and not replay and ctx.tier != "quick":
+            sf = kit.thin_stimuli(sf, 5000)         # thorough tier: at most ~5 000 evenly spaced executions per file in release
+        for ci, piece in enumerate(_pieces(sf)):
+            tr = os.path.join(ctx.work, "frame_trace_%s_%s_%d.ndjson" % (name, prof, ci))
+            r = ctx.run_stimuli(hxp, piece, tr, part, extra_args=extras[name])
+            ctx.count_distinct(tr)
+            res = ctx.validate("Trace_Frame", tr, comp=part, max_lines=5000, jobs=8, batch=True)
+            for x in r + res["rejected"] + res["heap"]:
+                x["profile"] = prof
+            rej += r + res["rejected"]
+            heap += res["heap"]
+            os.remove(tr)
+            if piece != sf:
+                os.remove(piece)
     return rej, heap
 
 
@@ -82,7 +119,12 @@ _COMMON = [
 def c03(ctx, replay):
     ctx.assumptions += _COMMON + [
         "values of 24..64-bit formats are boundary-structured + random, not exhaustive",
-        "debug build of the harness (overflow checks on): an out-of-domain offset panics and is accepted as 'no claim'",
+        "both build profiles of the harness are executed (debug: debug assertions and overflow checks on; release: off, optimised): "
+        "inside the property's domain the expected result is the same in both; an out-of-domain offset (overflow panic in debug, "
+        "wrap-around in release) is accepted as 'no claim' in either",
+        "offsets that LAND exactly on MIN, MIN + 1, MAX, MAX - 1 of every integer format (samples, frames of every width, in-place add)",
+        "channels() / channels_ref() are cloned mid-iteration (clone-and-continue; cycle(), which clones) after every prefix of "
+        "next()/next_back() calls, the exhausted iterator included",
     ]
     ctx.rule = ("one event = one call of a sample / frame operation; an execution (reset + its events) counts as distinct "
                 "non-trivial when its text is new; every event returns a value, so every execution is non-trivial")
@@ -95,6 +137,10 @@ def c10(ctx, replay):
         "'same memory' is observed as equality of the data pointers and as write-through in both directions; "
         "'releases the allocation' as the counting allocator's frees / live-bytes delta inside the call",
         "memory safety beyond that (reads outside the slice without observable effect) is out of reach of trace validation",
+        "both build profiles of the harness are executed; a length mismatch (a shorter than b AND a longer than b, the empty b "
+        "included) must be refused by a panic that leaves a untouched in the release build too (release executes an evenly spaced "
+        "subset of the executions: ~1 500 per file in the quick tier, ~5 000 in the thorough tier); a crash of the harness process "
+        "(out-of-bounds read) is attributed to the stimulus that caused it and reported as a rejection",
     ]
     ctx.rule = ("one event = one slice conversion (with its inverse and a write-through probe) or one in-place operation; "
                 "an execution (reset + its events) counts as distinct non-trivial when its text is new")
